@@ -97,7 +97,17 @@ def impl_verify(b, compress):
         fee = str(p.fee())
     except Exception:
         fee = "err"
-    return "ok " + " ".join(res) + " | " + " ".join(utx) + " | " + fee, (res, utx, fee)
+    # the PSBT-level observation points: is_verified after the per-input calls, and PSBT.verify() on a fresh parse
+    try:
+        flag = "true" if p.is_verified else "false"
+    except Exception:
+        flag = "raise"
+    try:
+        q = PSBT.parse(b, compress=compress)
+        whole = "true" if q.verify(ignore_missing=True) else "false"
+    except Exception:
+        whole = "raise"
+    return "ok " + " ".join(res) + " | " + " ".join(utx) + " | " + fee, (res, utx, fee, flag, whole)
 
 
 def case(c, kind, version, ins, outs, truth):
@@ -111,7 +121,16 @@ def case(c, kind, version, ins, outs, truth):
         c.expect("psbt.verify %d %s" % (compress, hx(b)), s, info, proven=True)
         if parsed is None:
             continue
-        res, utx, fee = parsed
+        res, utx, fee, flag, whole = parsed
+        # PSBT.is_verified / PSBT.verify() are the conjunction of the inputs' verdicts
+        want_flag = "true" if all(r == "true" for r in res) else "false"
+        want_whole = "raise" if "raise" in res else want_flag
+        if flag != want_flag:
+            c.fail("PSBT.is_verified is %s although the inputs verified as %s" % (flag, res),
+                   dict(info, op="psbt.is_verified", results=res))
+        if whole != want_whole:
+            c.fail("PSBT.verify() gives %s although the inputs verify as %s" % (whole, res),
+                   dict(info, op="psbt.verify()", results=res))
         for i, t in enumerate(truth):
             if t is None:
                 continue
